@@ -1,7 +1,171 @@
 import Driver.Util
-/- Sub-protocol `C11`: not built yet. -/
+import ZxVerif.Spec.Tape
+/-
+Sub-protocol `C11` (also the base of `C12`): the pulse generator under step schedules.
+  variant <0|1>               0 = code as found, 1 = with proposed_fixes/C12-1.diff          -> ok
+  tape <hex|->                insert a TAP image (fresh Tap, time 0)                          -> ok <blocks> <tail>
+  cmd play|stop|rewind        Tap::play / stop / rewind                                       -> ok
+  run <kind> <seed> <n>       n calls of process_clocks with the step schedule (kind, seed)
+        -> <ok|err:e> <time after> <stopped 0|1> <stop time|-> E <time:level> …   (edges of this run)
+  verdict                     the waveform spec on all edges since the tape was inserted       -> ok | undecided | violates:<what>
+  adjudicate <stop|-> <time:level> …   the same verdict for an edge list observed on the real code
+Schedules (both sides implement them identically; SplitMix64 as in harness/src/util.rs):
+  kind 0 uniform 1..16 · 1 constant (seed mod 16)+1 · 2 mostly 1..4, sometimes 16 · 3 alternating 16,1
+  · 4 instruction-like {3,4,4,4,5,6,7,8,3,1} · 5 constant `seed` T (coarse advance, used by C12 only)
+-/
 namespace Driver.C11
+open ZxVerif.Tape
 
-def proto : Driver.Proto := { σ := Unit, init := (), handle := fun s _ => (s, "unimplemented") }
+structure Rng where
+  s : UInt64
+
+def Rng.new (seed : UInt64) : Rng := ⟨(seed * 0x9E3779B97F4A7C15) ^^^ 0xD1B54A32D192ED03⟩
+
+def Rng.next (r : Rng) : UInt64 × Rng :=
+  let s := r.s + 0x9E3779B97F4A7C15
+  let z := s
+  let z := (z ^^^ (z >>> 30)) * 0xBF58476D1CE4E5B9
+  let z := (z ^^^ (z >>> 27)) * 0x94D049BB133111EB
+  (z ^^^ (z >>> 31), ⟨s⟩)
+
+def instrTable : Array Nat := #[3, 4, 4, 4, 5, 6, 7, 8, 3, 1]
+
+/-- step number `i` of schedule `kind` -/
+def nextStep (kind : Nat) (seed : Nat) (i : Nat) (r : Rng) : Nat × Rng :=
+  match kind with
+  | 5 => (seed, r)
+  | 1 => (seed % 16 + 1, r)
+  | 3 => (if i % 2 = 0 then 16 else 1, r)
+  | 2 => let (x, r) := r.next
+         (if x % 16 = 0 then 16 else 1 + ((x >>> 8) % 4).toNat, r)
+  | 4 => let (x, r) := r.next
+         (instrTable.getD (x % 10).toNat 4, r)
+  | _ => let (x, r) := r.next
+         (1 + (x % 16).toNat, r)
+
+structure Edge where
+  time : Nat
+  level : Bool
+
+structure St where
+  fixed : Bool := false
+  tap : Tap := Tap.new []
+  now : Nat := 0
+  edges : List Edge := []        -- newest first, since the tape was inserted
+  stopTime : Option Nat := none  -- when the generator was first seen in `Stop` after running
+  blocks : List (List Byte) := []
+  tailLen : Nat := 0
+
+def errStr : Err → String
+  | .eof => "err:eof"
+  | .invalidTap => "err:invalid"
+  | .fuel => "err:fuel"
+
+structure RunRes where
+  tap : Tap
+  now : Nat
+  edges : List Edge       -- of this run, newest first
+  stopTime : Option Nat
+  err : Option Err
+
+/-- n calls of `process_clocks` -/
+def drive (fixed : Bool) (kind seed : Nat) :
+    Nat → Nat → Rng → Tap → Nat → List Edge → Option Nat → RunRes
+  | 0, _, _, tap, now, edges, stopTime => { tap, now, edges, stopTime, err := none }
+  | n + 1, i, rng, tap, now, edges, stopTime =>
+    let (c, rng) := nextStep kind seed i rng
+    let wasRunning := tap.state != .stop
+    let lvl := tap.currBit
+    let (e, t) := processClocks fixed tap c
+    let now := now + c
+    let edges := if t.currBit != lvl then ⟨now, t.currBit⟩ :: edges else edges
+    let stopTime := if wasRunning && t.state == .stop && stopTime.isNone then some now else stopTime
+    match e with
+    | some err => { tap := t, now := now, edges := edges, stopTime := stopTime, err := some err }
+    | none => drive fixed kind seed n (i + 1) rng t now edges stopTime
+
+def edgeStr (e : Edge) : String := s!"{(Nat.toDigits 16 e.time).asString}:{bit e.level}"
+
+def parseEdge (s : String) : Option Edge :=
+  match s.splitOn ":" with
+  | [t, l] => some ⟨hexNatD t, l = "1"⟩
+  | _ => none
+
+/-- pulse lengths between consecutive edges, plus the time from the last edge to the stop -/
+def pulsesOf (edges : List Edge) (stop : Option Nat) : List Nat :=
+  let times := edges.map (·.time) ++ (match stop with | some s => [s] | none => [])
+  (times.zip (times.drop 1)).map fun (a, b) => b - a
+
+/-- cut a pulse list after every pause (a pulse of at least 3 000 000 T) -/
+def segments (ps : List Nat) : List (List Nat) × List Nat :=
+  let (segs, cur) := ps.foldl (fun (acc : List (List Nat) × List Nat) p =>
+      if p ≥ 3000000 then ((p :: acc.2).reverse :: acc.1, []) else (acc.1, p :: acc.2)) ([], [])
+  (segs.reverse, cur.reverse)
+
+/-- which part of a block's waveform is off (only called when `Spec.acceptsBlock` rejects) -/
+def diagnose (bs : List Byte) (measured : List Nat) : String :=
+  match bs with
+  | [] => "empty-block"
+  | flag :: _ =>
+    let pilot := measured.takeWhile (fun a => Spec.pulseOk 2168 a)
+    let restM := measured.drop pilot.length
+    let body := [667, 735] ++ bs.flatMap Spec.bytePulses
+    let pilotOk := if flag = 0 then pilot.length == 8063 else pilot.length ≥ 3223
+    if !pilotOk then
+      (if restM.isEmpty || Spec.pulseOk 667 (restM.headD 0) then "pilot-count" else "pilot-length")
+    else
+      let idx := (body.zip restM).findIdx? (fun (n, a) => !Spec.pulseOk n a)
+      match idx with
+      | some 0 => "sync1"
+      | some 1 => "sync2"
+      | some i => if body.getD i 0 == 855 then "bit0-length" else "bit1-length"
+      | none =>
+        if restM.length != body.length + 1 then "pulse-count" else "pause"
+
+def verdictOf (blocks : List (List Byte)) (tailLen : Nat) (edges : List Edge) (stop : Option Nat) : String :=
+  if tailLen ≥ 2 || blocks.any (·.isEmpty) then "undecided" else
+  let (segs, rest) := segments (pulsesOf edges stop)
+  let rec go : Nat → List (List Byte) → List (List Nat) → String
+    | _, _, [] => "ok"
+    | i, [], _ :: _ => s!"violates:more-than-{i}-blocks-played"
+    | i, b :: bs, s :: ss =>
+      if Spec.acceptsBlock b s then go (i + 1) bs ss else s!"violates:block-{i}:{diagnose b s}"
+  let v := go 0 blocks segs
+  if v != "ok" then v
+  else if stop.isSome && segs.length < blocks.length then s!"violates:stopped-after-{segs.length}-of-{blocks.length}-blocks"
+  else if stop.isSome && !rest.isEmpty then "violates:pulses-after-last-pause"
+  else "ok"
+
+def handle (s : St) : List String → St × String
+  | ["variant", v] => ({ s with fixed := boolD v }, "ok")
+  | ["tape", h] =>
+    let data := if h = "-" then [] else hexBytes h
+    let bl := Spec.blocks data
+    let tl := (Spec.tail data).length
+    ({ s with tap := Tap.new data, now := 0, edges := [], stopTime := none, blocks := bl, tailLen := tl },
+      s!"ok {bl.length} {tl}")
+  | ["cmd", c] =>
+    match c with
+    | "play" => ({ s with tap := s.tap.play }, "ok")
+    | "stop" => ({ s with tap := s.tap.stop s.fixed }, "ok")
+    | "rewind" => ({ s with tap := s.tap.rewind s.fixed }, "ok")
+    | _ => (s, "bad-op")
+  | ["run", kind, seed, n] =>
+    let seedN := hexNatD seed
+    let r := drive s.fixed (hexNatD kind) seedN (hexNatD n) 0 (Rng.new (UInt64.ofNat seedN))
+      s.tap s.now [] s.stopTime
+    let es := r.edges.reverse
+    let st := match r.err with | some e => errStr e | none => "ok"
+    let stopStr := match r.stopTime with | some t => (Nat.toDigits 16 t).asString | none => "-"
+    ({ s with tap := r.tap, now := r.now, edges := r.edges ++ s.edges, stopTime := r.stopTime },
+      s!"{st} {(Nat.toDigits 16 r.now).asString} {bit (r.tap.state == .stop)} {stopStr} E" ++
+        String.join (es.map fun e => " " ++ edgeStr e))
+  | ["verdict"] => (s, verdictOf s.blocks s.tailLen s.edges.reverse s.stopTime)
+  | "adjudicate" :: stop :: es =>
+    let stopT := if stop = "-" then none else some (hexNatD stop)
+    (s, verdictOf s.blocks s.tailLen (es.filterMap parseEdge) stopT)
+  | _ => (s, "bad-op")
+
+def proto : Driver.Proto := { σ := St, init := {}, handle := handle }
 
 end Driver.C11
